@@ -86,7 +86,7 @@ fn input(with_names: bool, with_producers: Option<&[(&str, &[(&str, &str)])]>, w
 }
 
 /// DWARF sections that only make sense next to the very `.debug_info` / `.debug_str` they were built for
-const STALE_IF_KEPT: &[&str] = &[".debug_names", ".debug_gnu_pubnames", ".debug_gnu_pubtypes", ".debug_pubnames", ".debug_sup", ".debug_aranges"];
+const STALE_IF_KEPT: &[&str] = &[".debug_names", ".debug_gnu_pubnames", ".debug_gnu_pubtypes", ".debug_pubnames", ".debug_sup", ".debug_aranges", ".debug_macinfo.dwo", ".debug_info.dwo"];
 
 pub fn config(_args: &[String]) -> Result<Value> {
     std::panic::set_hook(Box::new(|_| {}));
